@@ -421,6 +421,22 @@ fn main() {
                 emit_number(&NumberExpression::from(BinaryNumber::new(i, false)));
                 emit_number(&NumberExpression::from(BinaryNumber::new(i, true)));
             }
+            // hexadecimal / binary nodes of every bit length, hexadecimal exponents (Model/NumberWrite.v arms)
+            for k in 0..(n / 4).max(64) {
+                let bits = (k % 64) as u32 + 1;
+                let raw = rng.next();
+                let v = if bits == 64 { raw } else { (raw & ((1u64 << bits) - 1)) | (1u64 << (bits - 1)) };
+                let v = if rng.chance(1, 6) { (1u64 << (bits - 1)).wrapping_sub(rng.next() % 2) } else { v };
+                emit_number(&NumberExpression::from(HexNumber::new(v, rng.chance(1, 2))));
+                emit_number(&NumberExpression::from(BinaryNumber::new(v, rng.chance(1, 2))));
+                let e = match rng.next() % 5 {
+                    0 => (rng.next() % 64) as u32,
+                    1 => u32::MAX - (rng.next() % 3) as u32,
+                    2 => 0,
+                    _ => (rng.next() >> (rng.next() % 64)) as u32,
+                };
+                emit_number(&NumberExpression::from(HexNumber::new(v, rng.chance(1, 2)).with_exponent(e, rng.chance(1, 2))));
+            }
         }
         "parse" => {
             // literal texts through NumberExpression::from_str: `<text hex>\t<coq number term or ERR>`
